@@ -51,29 +51,34 @@ LEVEL.update({
             'per-class partition, latency lists, completed-once) for every run of the model loop; correspondence of whole '
             'runs incl. the returned SimulatorStats for all shipped schedulers. Partial: numpy mean/percentile rounding '
             '(tolerance 1e-9).', '6 C06'),
-    'C08': ('proof', 'Closed-loop theorems: for naive and the starter template in both container modes and for overbook '
-            'with overcommit, every run over well-formed DAG pipelines with non-empty scripts reaches its last tick '
-            'without an error (invariant over all reachable simulator states: running containers hold dependency-closed '
-            'chains, scheduler queues hold ready operators, decisions pass every executor check); per-round '
-            'admissibility theorems; totality of the statistics epilogue. For priority/priority-pool the closed-loop '
-            'claim is decided by correspondence of whole runs at scale (the implementation must return normally exactly '
-            'when the model does) plus the monitor (partial). One recorded finding (priority-pool in single-operator mode).',
-            '6 C08'),
-    'C12': ('proof', 'Per-round contracts of the priority policy from every queue/pool state: scan is a queue prefix, stops '
+    'C08': ('proof', 'Closed-loop theorems (the run reaches its last tick without an error, for all well-formed DAG workloads, '
+            'pool counts and positive sizes, tick rates, non-empty timing scripts): naive and the starter template in both '
+            'container modes, overbook with overcommit, priority-pool with multi-operator containers, priority with '
+            'single-operator containers; for priority with multi-operator containers the run-level theorem excludes every '
+            'error except those raised inside a container tick (partial; closed loop decided by whole-run correspondence). '
+            'Invariants over all reachable simulator states; per-round admissibility; totality of the statistics epilogue. '
+            'One recorded finding (priority-pool in single-operator mode, with its witness in the model).', '6 C08'),
+    'C12': ('proof', 'Per-round contracts of the priority policy from every queue/pool state (scan is a queue prefix, stops '
             'only on depletion, strict class order, work conservation w.r.t. the post-batch snapshot, suspension rules, '
-            'suspended work re-offered; correspondence on contended runs with preemption; the order / work-conservation / '
-            'no-suspension clauses are also monitored on priority-pool runs (shared pool 0, batch pool 1).', '6 C12'),
+            'suspended work re-offered) and run-level theorems over every reachable simulator state (no command is ever '
+            'refused by the executor, suspension batches duplicate-free, queue well-formedness; in single-operator mode no '
+            'operator queued twice and no ready pending operator lost); correspondence on contended runs with preemption; '
+            'order / work-conservation / no-suspension clauses also monitored on priority-pool runs.', '6 C12'),
     'C14': ('proof', 'Cell-level theorems for all row lists / all well-formed pipelines: read(write ps) = ps, write(read rows) '
             '= rows for writer-format files, every listed malformation refused, acceptance iff the rules hold; '
             'correspondence through the real csv reader/writer incl. malformed and benign variations. Partial: csv module '
             'quoting and float text round trip are below the model (exercised, not proved).', '6 C14'),
     'C16': ('proof', 'Per-round contracts of priority-pool (pool by class, never suspends, retry of exactly the unfinished '
-            'operators together, 50% cut-off) from every state; correspondence on two-pool runs with OOM retries.', '6 C16'),
+            'operators together, 50% cut-off) from every state, and run-level theorems: the both-or-none snapshot invariant '
+            'holds in every reachable simulator state, the internal assertion never fires, the closed loop reaches the last '
+            'tick; correspondence on two-pool runs with OOM retries.', '6 C16'),
     'C17': ('proof', 'Per-round contracts of naive and of the starter template (one container per pool with everything free, '
             'FIFO for fresh pipelines, never after a failure, single ready operator in single mode, no suspension); '
             'correspondence on multi-pool runs incl. the scheduler generated by `eudoxia init`.', '6 C17'),
     'C18': ('proof', 'Per-round contracts of overbook (one ready operator, one CPU, pool RAM; CPU-bound; nothing waits while '
-            'a CPU is free; abandoned after three failures, for all later rounds); correspondence on overcommitted runs.',
+            'a CPU is free; abandoned after three failures, for all later rounds) and run-level queue theorems over every '
+            'reachable simulator state (queue duplicate-free and = the ready operators of all live pipelines exactly; '
+            'one-operator containers); correspondence on overcommitted runs incl. abandonment with running siblings.',
             '6 C18'),
     'C20': ('proof', 'Theorems for snap (exact: never up, less than a tick, grid fixed, idempotent; float-faithful rnd64: '
             'loop post-conditions, grid-fixed, idempotent, fuel suffices), jitter (bounds, sorted, stable, frame) and the '
